@@ -6,6 +6,7 @@ import (
 	"context"
 	"fmt"
 	"runtime"
+	"strings"
 	"sync"
 	"sync/atomic"
 	"time"
@@ -160,13 +161,145 @@ func runRace(toks []string, out *common.Out) string {
 	return fmt.Sprintf("lost %d", st.lost)
 }
 
+// Racing run 2 (simultaneous first contacts of one address).
+//
+// Per round a fresh limiter; in the evict flavours the address first gets a bucket, which then idles
+// past the TTL.  `callers` goroutines call AllowIP for that address at the same moment:
+//
+//	first-parked / evict-parked: the harness holds the table lock (export shim), the callers park in
+//	    front of the lookup, the lock is released — every caller passes the lookup before any of them
+//	    can enter the create section (deterministic); in evict-parked cleanup() has dropped the bucket;
+//	first-spin / evict-spin: released by a spin barrier; in evict-spin cleanup() runs behind the same
+//	    barrier, so callers may also hold the old bucket while it is dropped.
+//
+// Observation `excess k`: the most by which any round exceeded the burst, after allowing for the refill
+// over the measured span of the round's calls (rounded up).
+func runRace2(toks []string, out *common.Out) string {
+	mode := toks[0]
+	rate, burst, ttl, callers, rounds := atoi(toks[1]), atoi(toks[2]), atoi(toks[3]), atoi(toks[4]), atoi(toks[5])
+	rnd := common.NewRand(uint64(atoi(toks[6])))
+	evict := strings.HasPrefix(mode, "evict")
+	parked := strings.HasSuffix(mode, "parked")
+	if !(evict || strings.HasPrefix(mode, "first")) || !(parked || strings.HasSuffix(mode, "spin")) {
+		return "bad-case"
+	}
+	var maxAdm, over, total int64
+	par := 12
+	sem := make(chan struct{}, par)
+	var wg sync.WaitGroup
+	for r := 0; r < rounds; r++ {
+		sem <- struct{}{}
+		wg.Add(1)
+		delay := time.Duration(rnd.Intn(30)) * time.Microsecond
+		go func(r int) {
+			defer wg.Done()
+			defer func() { <-sem }()
+			ctx, cancel := context.WithCancel(context.Background())
+			defer cancel()
+			lim := security.NewRateLimiter(&security.RateLimitConfig{Rate: rate, Burst: burst, TTL: time.Duration(ttl) * time.Millisecond}, nil, ctx)
+			ip := fmt.Sprintf("10.9.%d.%d", r>>8&255, r&255)
+			if evict {
+				lim.AllowIP(ip)
+				time.Sleep(time.Duration(ttl)*time.Millisecond + 6*time.Millisecond)
+				if parked {
+					lim.VerifCleanup()
+				}
+			}
+			var adm int64
+			var go_ int32
+			var firstStart, lastEnd int64 // unix nanoseconds: span of the racing calls
+			var cw sync.WaitGroup
+			if parked {
+				lim.VerifLockIPTable()
+			}
+			for c := 0; c < callers; c++ {
+				cw.Add(1)
+				go func() {
+					defer cw.Done()
+					for !parked && atomic.LoadInt32(&go_) == 0 {
+					}
+					a := time.Now().UnixNano()
+					for {
+						f := atomic.LoadInt64(&firstStart)
+						if (f != 0 && f <= a) || atomic.CompareAndSwapInt64(&firstStart, f, a) {
+							break
+						}
+					}
+					if lim.AllowIP(ip) {
+						atomic.AddInt64(&adm, 1)
+					}
+					b := time.Now().UnixNano()
+					for {
+						l := atomic.LoadInt64(&lastEnd)
+						if l >= b || atomic.CompareAndSwapInt64(&lastEnd, l, b) {
+							break
+						}
+					}
+				}()
+			}
+			if parked {
+				time.Sleep(2 * time.Millisecond) // the callers are parked on the table lock
+				lim.VerifUnlockIPTable()
+			} else {
+				if evict {
+					cw.Add(1)
+					go func() {
+						defer cw.Done()
+						for atomic.LoadInt32(&go_) == 0 {
+						}
+						for t0 := time.Now(); time.Since(t0) < delay; {
+						}
+						lim.VerifCleanup()
+					}()
+				}
+				time.Sleep(200 * time.Microsecond)
+				atomic.StoreInt32(&go_, 1)
+			}
+			cw.Wait()
+			// what the bucket may have refilled while the racing calls were under way (a descheduled
+			// caller can arrive milliseconds late on a busy machine) does not count against the burst
+			if span := lastEnd - firstStart; span > 0 && rate > 0 {
+				adm -= (span*int64(rate) + 999999999) / 1000000000
+			}
+			atomic.AddInt64(&total, 1)
+			exc := adm - int64(burst)
+			if exc > 0 {
+				atomic.AddInt64(&over, 1)
+			}
+			for {
+				m := atomic.LoadInt64(&maxAdm)
+				if exc <= m || atomic.CompareAndSwapInt64(&maxAdm, m, exc) {
+					break
+				}
+			}
+		}(r)
+	}
+	wg.Wait()
+	if out != nil {
+		out.Counts["race2-"+mode+":rounds"] += int(total)
+		out.Counts["race2-"+mode+":rounds-over-burst"] += int(over)
+	}
+	return fmt.Sprintf("excess %d", maxAdm)
+}
+
 func raceCases(tier string, seed uint64) []job {
 	rounds := 200
 	if tier == "thorough" {
-		rounds = 5000
+		rounds = 4000
 	}
-	return []job{
+	r2 := 150
+	if tier == "thorough" {
+		r2 = 2000
+	}
+	var js []job
+	for _, m := range []string{"first-parked", "first-spin"} {
+		js = append(js, job{"", fmt.Sprintf("race2 %s 0 2 1000000 12 %d %d", m, r2, seed), "race2"})
+	}
+	for _, m := range []string{"evict-parked", "evict-spin"} {
+		js = append(js, job{"", fmt.Sprintf("race2 %s 20 2 100 12 %d %d", m, r2, seed), "race2"})
+	}
+	return append(js, []job{
 		{"", fmt.Sprintf("race manual 3 600000 150 1000 600 8 %d %d", rounds, seed), "race"},
 		{"", fmt.Sprintf("race ticker 3 600000 150 1000 600 8 %d %d", rounds/4, seed), "race"},
-	}
+	}...)
 }
